@@ -663,8 +663,8 @@ CHECKS["C11"].update({
              "rejected by validation only are compared with validation disabled; the kind rules enter build_exact_valid through C13's ValidSchema. "
              "additional_types: exactness proved for documents without extension blocks; with extension blocks per supplied type "
              "(extend_supplied_exact) - the schema-level statement is refuted by finding C11/A1 until the proposed fix is committed; the public "
-             "extend_schema(..., additional_types=) is not modelled. The approximate model (one hidden type) differs from the code on about 8% of "
-             "documents with recursive input objects + defaults + extensions (measured); buildP agrees on all of them but carries no theorem: the "
+             "extend_schema(..., additional_types=) is not modelled. The approximate model (one hidden type) differs from the code on about a fifth of the "
+             "documents of the targeted stream (recursive input objects + defaults + extensions; 188 of 1000 measured); buildP agrees on all of them but carries no theorem: the "
              "theorems hold under SelfDefaults, implied by non-recursive input objects. Only exercised by the correspondence / oracle: the "
              "APPLICATION of schema_directives (SchemaDirective visitors), Schema objects assembled in Python passed to extend_schema, nodes lists. no_other_branch_partial (vacuous) and "
              "build_exact_partial are kept for name stability and superseded by no_other_branch / build_exact_final. Known findings S8, S1b, S10, "
